@@ -117,6 +117,9 @@ type pubNodeBase struct {
 
 	// msgChan is an internal channel where messages from msgFetcher are collected
 	msgChan chan *Message
+	// stopped is closed by cleanup, i.e. once nobody receives from msgChan
+	// anymore; it releases an InjectControlMessage that raced the node's exit.
+	stopped chan struct{}
 }
 
 // Trigger sets up 2 goroutines, one that listens to the external error channel
@@ -145,6 +148,7 @@ func (n *pubNodeBase) Trigger(
 
 	n.running = true
 	n.msgChan = make(chan *Message)
+	n.stopped = make(chan struct{})
 	internalErrChan := make(chan error)
 
 	if externalErrChan != nil {
@@ -206,15 +210,24 @@ func (n *pubNodeBase) Trigger(
 // to implement.
 func (n *pubNodeBase) InjectControlMessage(ctx context.Context, msgType ControlMessageType, r opencdc.Record) error {
 	n.lock.Lock()
-	defer n.lock.Unlock()
 	if !n.running {
+		n.lock.Unlock()
 		return cerrors.New("tried to inject control message but PubNode is not running")
 	}
+	msgChan, stopped := n.msgChan, n.stopped
+	// Do not hold the lock while waiting for the node to take the message: if
+	// the node is exiting at the same time (nobody receives from msgChan
+	// anymore) its cleanup needs this lock, and with a context that is never
+	// cancelled both would wait for each other forever - the stop request
+	// would never return and the pipeline would never finish stopping.
+	n.lock.Unlock()
 
 	select {
 	case <-ctx.Done():
 		return ctx.Err()
-	case n.msgChan <- &Message{controlMessageType: msgType, Record: r}:
+	case <-stopped:
+		return cerrors.New("tried to inject control message but PubNode is not running")
+	case msgChan <- &Message{controlMessageType: msgType, Record: r}:
 		return nil
 	}
 }
@@ -227,6 +240,10 @@ func (n *pubNodeBase) cleanup(ctx context.Context, logger log.CtxLogger) {
 	close(n.out)
 	n.out = nil
 	n.running = false
+	if n.stopped != nil {
+		close(n.stopped)
+		n.stopped = nil
+	}
 	logger.Trace(ctx).Msg("PubNode cleaned up")
 }
 
